@@ -58,7 +58,7 @@ package shard
 //@   ensures forallv(a string, forallv(b string, contains(cacheTx.writtenCaches, a) && contains(cacheTx.writtenCaches, b) && a != b ==> cacheTx.writtenCaches[a] != cacheTx.writtenCaches[b]))
 
 //@ func (*Shard).InsertPoints
-//@   property C07
+//@   property C07 C08
 //@   safety -overflow -index
 //@   requires s.cacheManager != nil
 //@   ensures ncalls(NewTransaction) == 0 ==> result != nil && ncalls(Commit) == 0 && ncalls(Write) == 0
@@ -66,14 +66,14 @@ package shard
 //@   ensures ncalls(Commit) == 1 ==> lastarg(Commit, 1) == (result != nil) && (result != nil) == (lastres(Write) != nil)
 
 //@ func (*Shard).UpdatePoints
-//@   property C07
+//@   property C07 C08
 //@   safety -overflow -index
 //@   requires s.cacheManager != nil
 //@   ensures ncalls(NewTransaction) == 1 && ncalls(Commit) == 1 && ncalls(Write) == 1
 //@   ensures lastarg(Commit, 1) == (err != nil) && (err != nil) == (lastres(Write) != nil)
 
 //@ func (*Shard).DeletePoints
-//@   property C07
+//@   property C07 C08
 //@   safety -overflow -index
 //@   requires s.cacheManager != nil
 //@   ensures ncalls(NewTransaction) == 1 && ncalls(Commit) == 1 && ncalls(Write) == 1
@@ -141,3 +141,22 @@ package shard
 //@   ensures callres(GetPointByUUID, 1, 1) == nil ==> callarg(FreeId, 1, 1) == callres(GetPointByUUID, 1, 0).NodeId && callarg(DeletePoint, 1, 2) == callres(GetPointByUUID, 1, 0).NodeId && callarg(DeletePoint, 1, 1) == pointId
 //@   ensures callres(GetPointByUUID, 1, 1) == nil ==> len(deletedIds) == old(len(deletedIds)) + 1 && deletedIds[len(deletedIds)-1] == pointId
 //@   ensures !skip && err == nil ==> ipc.NodeId == callres(GetPointByUUID, 1, 0).NodeId && ipc.PreviousData == callres(GetPointByUUID, 1, 0).Point.Data
+
+// ---- persisted id counter (properties C08, C10): Flush writes the next free id and the free
+// list under the counter's two keys; the constructor reads the next free id back from the same
+// key with the inverse codec (2 for a fresh shard).
+//@ func (*IdCounter).Flush
+//@   property C08 C10
+//@   pure
+//@   ensures ncalls(Put) >= 1 && callarg(Put, 1, 1) == ic.nextFreeIdKey && len(callarg(Put, 1, 2)) == 8 && le64at(callarg(Put, 1, 2), 0) == ic.nextFreeId
+//@   ensures callres(Put, 1, 0) != nil ==> result != nil && ncalls(Put) == 1
+//@   ensures callres(Put, 1, 0) == nil ==> ncalls(Put) == 2 && callarg(Put, 2, 1) == ic.freeIdsKey && callarg(Put, 2, 2) == callres(EdgeListToBytes, 1, 0) && callarg(EdgeListToBytes, 1, 0) == ic.freeIds
+//@   ensures ncalls(Put) == 2 ==> (result == nil) == (callres(Put, 2, 0) == nil)
+//@ func NewIdCounter
+//@   property C08 C10
+//@   safety -slice -overflow -index -makelen
+//@   after Get assume result == nil || len(result) >= 8
+//@   ensures result1 == nil && result0 != nil && fresh(result0) && result0.bucket == bucket && result0.freeIdsKey == freeIdsKey && result0.nextFreeIdKey == nextFreeIdKey
+//@   ensures ncalls(Get) == 2 && callarg(Get, 1, 1) == freeIdsKey && callarg(Get, 2, 1) == nextFreeIdKey
+//@   ensures callres(Get, 2, 0) == nil ==> result0.nextFreeId == 2
+//@   ensures callres(Get, 2, 0) != nil ==> result0.nextFreeId == le64at(callres(Get, 2, 0), 0)
